@@ -78,6 +78,7 @@ func cmdRun(args []string) int {
 	fs.Parse(args)
 	t0 := time.Now()
 	eng := newEngine(o.repo)
+	eng.curProp = o.prop
 	if o.overlay != "" {
 		if err := eng.readExtraOverlay(o.overlay); err != nil {
 			fmt.Fprintln(os.Stderr, "overlay:", err)
@@ -149,19 +150,28 @@ func cmdRun(args []string) int {
 			cts = append(cts, c)
 		}
 	}
+	work := filepath.Join(o.verif, ".work", fmt.Sprintf("%s-%d", o.prop, os.Getpid()))
+	os.MkdirAll(work, 0o755)
+	var enumObls []*Obligation
 	for _, c := range cts {
+		if c.Exhaustive {
+			ob := eng.verifyExhaustive(c, o, work)
+			enumObls = append(enumObls, ob)
+			results = append(results, &FuncResult{Contract: c, VC: ob.vc, Obls: []*Obligation{ob}})
+			continue
+		}
 		r := eng.verifyContract(c)
 		results = append(results, r)
 		all = append(all, r.Obls...)
 	}
 	tGen := time.Since(t0) - tLoad
-	work := filepath.Join(o.verif, ".work", fmt.Sprintf("%s-%d", o.prop, os.Getpid()))
-	cfg := solveCfg{tier: o.tier, workdir: work, quickT: 3, fullT: 10, jobs: o.jobs}
+	cfg := solveCfg{tier: o.tier, workdir: work, quickT: 4, fullT: 30, jobs: o.jobs}
 	if o.tier == "thorough" {
 		cfg.fullT = 120
 		cfg.quickT = 10
 	}
 	solveObligations(all, cfg)
+	all = append(all, enumObls...)
 	tSolve := time.Since(t0) - tLoad - tGen
 	code := report(eng, o, results, all, tLoad, tGen, tSolve, t0, work)
 	if !o.keep {
